@@ -154,8 +154,8 @@ theorem jmpPhase_plain {tbl : RegTable} (ht : tableOk tbl = true) (env : Env)
     (hok : ∀ j ∈ js, jmpOk tbl j.term = true) (hshape : jmpsShapeOk js = true)
     (hnr : ∀ j ∈ js, ∀ v, jmpOperand j.term = some v → v.isRam = false)
     {σ₁ ρ₂ : State} (hag : Agree IsBothTemp σ₁ ρ₂) (hρ : WellTyped ρ₂)
-    {e₂ : List Event} {n : Next} (hx : execJmps tbl env σ₁ 0 js = some (e₂, n)) :
-    ∃ ijs n', mapOpt (liftJmp tbl) js = some ijs ∧ Sem.execJmps env ρ₂ 0 ijs = (e₂, n') ∧ NextAgree IsBothTemp n n' := by
+    (c : Nat) {e₂ : List Event} {n : Next} (hx : execJmps tbl env σ₁ c js = some (e₂, n)) :
+    ∃ ijs n', mapOpt (liftJmp tbl) js = some ijs ∧ Sem.execJmps env ρ₂ c ijs = (e₂, n') ∧ NextAgree IsBothTemp n n' := by
   have hphys' : ∀ v ∈ env.physRegs, ¬ IsBothTemp v := fun v hv hT => by
     have := isBothTemp_temp v hT; rw [hphys v hv] at this; simp at this
   match js, hshape with
@@ -170,7 +170,7 @@ theorem jmpPhase_plain {tbl : RegTable} (ht : tableOk tbl = true) (env : Env)
     have hj := hok j (by simp)
     have hnc : j.term.mnemonic ≠ .CBRANCH := by simpa [jmpsShapeOk] using hs
     obtain ⟨ij, n', h1, h2, h3⟩ := single_sim ht isBothTemp_temp env hphys' hag hρ j hnc
-      (jmpOk_JmpOkN hj (hnr j (by simp))) 0 hx
+      (jmpOk_JmpOkN hj (hnr j (by simp))) c hx
     exact ⟨[ij], n', by simp [mapOpt, h1], h2, h3⟩
   | [cj, bj], hs =>
     have hcj := hok cj (by simp)
@@ -186,7 +186,7 @@ theorem jmpPhase_plain {tbl : RegTable} (ht : tableOk tbl = true) (env : Env)
         | Indirect w => simp [hg] at hbj
     obtain ⟨t₂, hbg⟩ := hbg
     obtain ⟨ic, ib, n', h1, h2, h3, h4⟩ := cbranch_sim ht isBothTemp_temp env hphys' hag hρ cj bj hs.1 hs.2 hbg
-      (jmpOk_JmpOkN hcj (hnr cj (by simp))) 0 hx
+      (jmpOk_JmpOkN hcj (hnr cj (by simp))) c hx
     exact ⟨[ic, ib], n', by simp [mapOpt, h1, h2], h3, h4⟩
   | _ :: _ :: _ :: _, hs => simp [jmpsShapeOk] at hs
 
@@ -235,11 +235,11 @@ theorem jmpPhase_ram {tbl : RegTable} (ht : tableOk tbl = true) {ptr : Nat} (hp0
     (hphys : ∀ v ∈ env.physRegs, v.isTemp = false) (j : Term Pcode.Jmp) (hok : jmpOk tbl j.term = true)
     {v : Pcode.Var} (hop : jmpOperand j.term = some v) (hram : v.isRam = true)
     {σ₁ τ₁ : State} (hptr : σ₁.ptrBytes = ptr) (hag : Agree IsLoadTemp σ₁ τ₁)
-    {e₂ : List Event} {n : Next} (hx : execJmps tbl env σ₁ 0 [j] = some (e₂, n)) :
+    (c : Nat) {e₂ : List Event} {n : Next} (hx : execJmps tbl env σ₁ c [j] = some (e₂, n)) :
     ∃ ls j' τ₂ el, addLoadsJmps ptr 0 [j] = some (ls, [j']) ∧ execDefs tbl τ₁ ls = some (τ₂, el) ∧
       (∀ d ∈ ls, defOkN tbl d.term = true) ∧ Agree IsLoadTemp σ₁ τ₂ ∧
       ∀ ρ₂, Agree IsLoadedValue τ₂ ρ₂ → WellTyped ρ₂ →
-        ∃ ij ev' n', liftJmp tbl j' = some ij ∧ Sem.execJmps env ρ₂ 0 [ij] = (ev', n') ∧ el ++ ev' = e₂ ∧
+        ∃ ij ev' n', liftJmp tbl j' = some ij ∧ Sem.execJmps env ρ₂ c [ij] = (ev', n') ∧ el ++ ev' = e₂ ∧
           NextAgree IsBothTemp n n' := by
   have hphysL : ∀ u ∈ env.physRegs, ¬ IsLoadTemp u := fun u hu hT => by
     have := hT.1; rw [hphys u hu] at this; simp at this
@@ -328,7 +328,7 @@ theorem jmpPhase_ram {tbl : RegTable} (ht : tableOk tbl = true) {ptr : Nat} (hp0
       refine ⟨[⟨j.tid.withIdSuffix "_load", ld⟩], j', τ₂, e, ?_, hxl, by simpa using hdok, hag₂, ?_⟩
       · simp [addLoadsJmps, addLoadsJmp, hm, hg, labelIndirect, hadr, loadTempName0, loadTempName0', htld, ld, j', tmp]
       · intro ρ₂ hagρ hρ
-        have hxτ : execJmps tbl env τ₂ 0 [j'] = some ([.jumpInd j.tid.id x.toNat (τ₂.snapshot env.physRegs)], .stop) := by
+        have hxτ : execJmps tbl env τ₂ c [j'] = some ([.jumpInd j.tid.id x.toNat (τ₂.snapshot env.physRegs)], .stop) := by
           unfold execJmps
           simp [j', hm, Pcode.Label.indirect?, hrt]
         have hjok : JmpOkN tbl IsLoadedValue j'.term := by
@@ -337,7 +337,7 @@ theorem jmpPhase_ram {tbl : RegTable} (ht : tableOk tbl = true) {ptr : Nat} (hp0
           subst hw
           exact ⟨hvn, by simp [Pcode.Var.isRam, hktmp], hoktmp _ (fun u h => h.2)⟩
         obtain ⟨ij, n', h1, h2, h3⟩ := single_sim ht isLoadedValue_temp env hphysV hagρ hρ j'
-          (by simp [j', hm]) hjok 0 hxτ
+          (by simp [j', hm]) hjok c hxτ
         refine ⟨ij, _, n', h1, h2, ?_, (h3.mono (fun _ h => Or.inr h))⟩
         rw [snapshot_agree hag₂ _ hphysL]
   · -- CALLIND
@@ -378,22 +378,22 @@ theorem jmpPhase_ram {tbl : RegTable} (ht : tableOk tbl = true) {ptr : Nat} (hp0
           | none =>
             simp only [Prod.mk.injEq] at hx
             obtain ⟨rfl, rfl⟩ := hx
-            have hxτ : execJmps tbl env τ₂ 0 [j'] = some ([.callInd j.tid.id x.toNat (τ₂.snapshot env.physRegs),
+            have hxτ : execJmps tbl env τ₂ c [j'] = some ([.callInd j.tid.id x.toNat (τ₂.snapshot env.physRegs),
                 .deadEnd (τ₂.snapshot env.physRegs)], .stop) := by
               unfold execJmps
               simp [j', cl', hm, Pcode.Label.indirect?, hrt, hret']
             obtain ⟨ij, n', h1, h2, h3⟩ := single_sim ht isLoadedValue_temp env hphysV hagρ hρ j'
-              (by simp [j', hm]) hjok 0 hxτ
+              (by simp [j', hm]) hjok c hxτ
             exact ⟨ij, _, n', h1, h2, by rw [hsn], (h3.mono (fun _ h => Or.inr h))⟩
           | some rt =>
             simp only [Prod.mk.injEq] at hx
             obtain ⟨rfl, rfl⟩ := hx
-            have hxτ : execJmps tbl env τ₂ 0 [j'] = some ([.callInd j.tid.id x.toNat (τ₂.snapshot env.physRegs)],
-                .goto rt (havoc τ₂ env.physRegs env.sp j.tid.id 0) 1) := by
+            have hxτ : execJmps tbl env τ₂ c [j'] = some ([.callInd j.tid.id x.toNat (τ₂.snapshot env.physRegs)],
+                .goto rt (havoc τ₂ env.physRegs env.sp j.tid.id c) (c + 1)) := by
               unfold execJmps
               simp [j', cl', hm, Pcode.Label.indirect?, hrt, hret']
             obtain ⟨ij, n', h1, h2, h3⟩ := single_sim ht isLoadedValue_temp env hphysV hagρ hρ j'
-              (by simp [j', hm]) hjok 0 hxτ
+              (by simp [j', hm]) hjok c hxτ
             refine ⟨ij, _, n', h1, h2, by rw [hsn], ?_⟩
             exact NextAgree.trans (.goto (havoc_agree hag₂ _ _ _ _)) h3
 
@@ -429,24 +429,15 @@ theorem mapOpt_liftJmp (tbl : RegTable) : ∀ (js : List (Term Pcode.Jmp)) (ijs 
             simp only [Option.bind_eq_bind] at m1 m2
             exact ⟨⟨j.tid, a⟩ :: mid, by simp [mapOpt, h1, m1], by simp [mapOpt, h2, m2]⟩
 
-/-- **C11-block (the property).** For every block of in-domain P-Code, every well-typed initial state and
-every execution of the block under the P-Code reference semantics, the block produced by the lifting
-(`normalize`, `into_ir_blk`, `replace_subregister_in_block`) exists and, run from the SAME state by the IR
-reference interpreter, has
-
-* the same memory accesses (loads and stores: address, size, value) in the same order — implicit accesses
-  through RAM varnodes have become explicit ones —,
-* a final state that agrees on memory and on every register except the temporaries introduced by the
-  lifting (`loaded_value`, `$load_temp0..2`), in particular on all BASE registers,
-* the same branch decision: same jump events (with equal snapshots of base registers and memory), same
-  successor block, agreeing states after a call. -/
-theorem liftBlk_sim {tbl : RegTable} (ht : tableOk tbl = true) {ptr : Nat} (hp0 : 0 < ptr) (env : Env)
+/-- `liftBlk_sim` for an arbitrary number of calls executed so far; additionally the IR state after the
+defs is well typed and keeps the pointer size (needed to chain blocks) -/
+theorem liftBlk_sim_gen {tbl : RegTable} (ht : tableOk tbl = true) {ptr : Nat} (hp0 : 0 < ptr) (env : Env)
     (hphys : ∀ v ∈ env.physRegs, v.isTemp = false) (b : Pcode.Blk) (hb : blkOk tbl b = true)
     {σ : State} (hσ : WellTyped σ) (hptr : σ.ptrBytes = ptr)
-    {eff : BlkEffect} (hx : execBlk tbl env σ b = some eff) :
+    (c : Nat) {eff : BlkEffect} (hx : execBlk tbl env σ b c = some eff) :
     ∃ ib ρ₁ ev₁ ev₂ n', liftBlk tbl ptr b = some ib ∧ Sem.execDefs σ ib.defs = some (ρ₁, ev₁) ∧
-      Sem.execJmps env ρ₁ 0 ib.jmps = (ev₂, n') ∧ ev₁ ++ ev₂ = eff.events ++ eff.jmpEvents ∧
-      Agree IsLiftTemp eff.after ρ₁ ∧ NextAgree IsLiftTemp eff.next n' := by
+      Sem.execJmps env ρ₁ c ib.jmps = (ev₂, n') ∧ ev₁ ++ ev₂ = eff.events ++ eff.jmpEvents ∧
+      Agree IsLiftTemp eff.after ρ₁ ∧ NextAgree IsLiftTemp eff.next n' ∧ WellTyped ρ₁ ∧ ρ₁.ptrBytes = ptr := by
   unfold blkOk at hb
   simp only [Bool.and_eq_true, List.all_eq_true] at hb
   obtain ⟨⟨hdefs, hjmps⟩, hshape⟩ := hb
@@ -455,7 +446,7 @@ theorem liftBlk_sim {tbl : RegTable} (ht : tableOk tbl = true) {ptr : Nat} (hp0 
   | none => simp [hd] at hx
   | some p =>
   obtain ⟨σ₁, e₁⟩ := p
-  cases hj : execJmps tbl env σ₁ 0 b.jmps with
+  cases hj : execJmps tbl env σ₁ c b.jmps with
   | none => simp [hd, hj] at hx
   | some q =>
   obtain ⟨e₂, n⟩ := q
@@ -467,19 +458,19 @@ theorem liftBlk_sim {tbl : RegTable} (ht : tableOk tbl = true) {ptr : Nat} (hp0 
   have hJ : ∃ ls js' τ₂ el, addLoadsJmps ptr 0 b.jmps = some (ls, js') ∧ execDefs tbl τ₁ ls = some (τ₂, el) ∧
       (∀ d ∈ ls, defOkN tbl d.term = true) ∧ Agree IsLoadTemp σ₁ τ₂ ∧
       ∀ ρ₂, Agree IsLoadedValue τ₂ ρ₂ → WellTyped ρ₂ →
-        ∃ ijs ev' n', mapOpt (liftJmp tbl) js' = some ijs ∧ Sem.execJmps env ρ₂ 0 ijs = (ev', n') ∧
+        ∃ ijs ev' n', mapOpt (liftJmp tbl) js' = some ijs ∧ Sem.execJmps env ρ₂ c ijs = (ev', n') ∧
           el ++ ev' = e₂ ∧ NextAgree IsBothTemp n n' := by
     by_cases hram : ∃ j v, b.jmps = [j] ∧ jmpOperand j.term = some v ∧ v.isRam = true
     · obtain ⟨j, v, hjs, hop, hr⟩ := hram
       rw [hjs] at hj hjmps ⊢
-      obtain ⟨ls, j', τ₂, el, h1, h2, h3, h4, h5⟩ := jmpPhase_ram ht hp0 env hphys j (hjmps j (by simp)) hop hr hptr₁ hag₁ hj
+      obtain ⟨ls, j', τ₂, el, h1, h2, h3, h4, h5⟩ := jmpPhase_ram ht hp0 env hphys j (hjmps j (by simp)) hop hr hptr₁ hag₁ c hj
       refine ⟨ls, [j'], τ₂, el, h1, h2, h3, h4, fun ρ₂ hagρ hρ => ?_⟩
       obtain ⟨ij, ev', n', g1, g2, g3, g4⟩ := h5 ρ₂ hagρ hρ
       exact ⟨[ij], ev', n', by simp [mapOpt, g1], g2, g3, g4⟩
     · have hnr := plain_of_not_ram b.jmps hjmps hshape hram
       refine ⟨[], b.jmps, τ₁, [], addLoadsJmps_plain b.jmps hjmps hshape hnr, rfl, by simp, hag₁,
         fun ρ₂ hagρ hρ => ?_⟩
-      obtain ⟨ijs, n', g1, g2, g3⟩ := jmpPhase_plain ht env hphys b.jmps hjmps hshape hnr (hag₁.trans hagρ) hρ hj
+      obtain ⟨ijs, n', g1, g2, g3⟩ := jmpPhase_plain ht env hphys b.jmps hjmps hshape hnr (hag₁.trans hagρ) hρ c hj
       exact ⟨ijs, e₂, n', g1, g2, by simp, g3⟩
   obtain ⟨ls, js', τ₂, el, hlj, hxl, hokl, hag₂, hK⟩ := hJ
   -- all normalized instructions, incl. the load of a jump target
@@ -496,12 +487,13 @@ theorem liftBlk_sim {tbl : RegTable} (ht : tableOk tbl = true) {ptr : Nat} (hp0 
   obtain ⟨mid, hm1, hm2⟩ := mapOpt_liftJmp tbl js' ijs hlift
   refine ⟨{ defs := final, jmps := ijs,
             indirectJmpTargets := ((js'.findSome? (fun j => j.term.targetHints)).getD []).map blkIdAtAddress },
-    ρ₂, e₁ ++ el, ev', n', ?_, hxfin, hxj, ?_, ?_, hnext.mono (fun _ h => isBothTemp_lift h)⟩
+    ρ₂, e₁ ++ el, ev', n', ?_, hxfin, hxj, ?_, ?_, hnext.mono (fun _ h => isBothTemp_lift h), hρ₂, ?_⟩
   · simp only [rawDefs] at hraw
     simp only [Option.bind_eq_bind] at hraw hm1 hm2
     simp [liftBlk, addLoadDefs, hmap, hlj, blkToIr, hraw, hm1, replaceSubregisterInBlock, hm2, hfin]
   · rw [List.append_assoc, hev]
   · exact (hag₂.trans hagρ).mono (fun _ h => isBothTemp_lift h)
+  · rw [← (hag₂.trans hagρ).ptr]; exact hptr₁
 
 
 theorem mem_btreeInsert {m : List (Term Sub)} {s x : Term Sub} (h : x ∈ btreeInsert m s) : x = s ∨ x ∈ m := by
@@ -639,6 +631,26 @@ theorem liftProject_blocks {p : Pcode.Project} {prog : Program} (h : liftProject
   simp only at hbi hr
   simp [liftBlk, hal, hbi, hr]
 
+/-- **C11-block (the property).** For every block of in-domain P-Code, every well-typed initial state and
+every execution of the block under the P-Code reference semantics, the block produced by the lifting
+(`normalize`, `into_ir_blk`, `replace_subregister_in_block`) exists and, run from the SAME state by the IR
+reference interpreter, has
+
+* the same memory accesses (loads and stores: address, size, value) in the same order — implicit accesses
+  through RAM varnodes have become explicit ones —,
+* a final state that agrees on memory and on every register except the temporaries introduced by the
+  lifting (`loaded_value`, `$load_temp0..2`), in particular on all BASE registers,
+* the same branch decision: same jump events (with equal snapshots of base registers and memory), same
+  successor block, agreeing states after a call. -/
+theorem liftBlk_sim {tbl : RegTable} (ht : tableOk tbl = true) {ptr : Nat} (hp0 : 0 < ptr) (env : Env)
+    (hphys : ∀ v ∈ env.physRegs, v.isTemp = false) (b : Pcode.Blk) (hb : blkOk tbl b = true)
+    {σ : State} (hσ : WellTyped σ) (hptr : σ.ptrBytes = ptr)
+    {eff : BlkEffect} (hx : execBlk tbl env σ b = some eff) :
+    ∃ ib ρ₁ ev₁ ev₂ n', liftBlk tbl ptr b = some ib ∧ Sem.execDefs σ ib.defs = some (ρ₁, ev₁) ∧
+      Sem.execJmps env ρ₁ 0 ib.jmps = (ev₂, n') ∧ ev₁ ++ ev₂ = eff.events ++ eff.jmpEvents ∧
+      Agree IsLiftTemp eff.after ρ₁ ∧ NextAgree IsLiftTemp eff.next n' := by
+  obtain ⟨ib, ρ₁, ev₁, ev₂, n', h1, h2, h3, h4, h5, h6, _⟩ := liftBlk_sim_gen ht hp0 env hphys b hb hσ hptr 0 hx
+  exact ⟨ib, ρ₁, ev₁, ev₂, n', h1, h2, h3, h4, h5, h6⟩
 
 /-- the physical registers the driver observes (the base registers of the table) are not temporaries -/
 theorem baseRegs_nontemp (tbl : RegTable) : ∀ v ∈ baseRegs tbl, v.isTemp = false := by
